@@ -1,6 +1,8 @@
 package c19
 
 import (
+	"crypto/sha256"
+	"encoding/binary"
 	"encoding/hex"
 	"encoding/xml"
 	"fmt"
@@ -592,10 +594,51 @@ func formEnum(c *ctx, script []int) []int {
 
 // formEval drives one form (description + Set operations) through every path.
 func formEval(c *ctx, vline string, fd formDesc, ops []setOp, dup, bad bool, class string) {
+	formEvalOn(c, vline, fd, ops, dup, bad, class, nil)
+}
+
+// formDecoded: a form an unmarshaller returned is a value of the type like any other (second
+// generation): it is described through the exported accessors and driven through the same
+// paths, Set / Get / Submit and the model lines as a form built by the constructors.
+func formDecoded(c *ctx, b []byte, lines []string) {
+	var d form.Data
+	if pan, err := safeUnmarshal(b, &d); pan != "" || err != nil {
+		return
+	}
+	var fd formDesc
+	attributable := false
+	if p := guard("describe", func() ([]byte, []xml.Token, error) { fd, attributable = descOf(&d); return nil, nil, nil }); p.panicked != "" {
+		c.r.Fail("no-panic", "form.Data/accessors/"+panicClass(p.panicked), lines, "the accessors of a decoded form panicked: "+p.panicked)
+		return
+	}
+	seen := map[string]bool{}
+	dup := !attributable || fd.typ == "submit" || fd.typ == "PANIC"
+	for _, f := range fd.fields {
+		if f.typ != "fixed" && seen[f.varName] {
+			dup = true
+		}
+		seen[f.varName] = true
+		known := false
+		for _, t := range fieldTypes {
+			known = known || t == f.typ
+		}
+		if !known {
+			dup = true // a field type the model does not describe: oracle only
+		}
+	}
+	h := sha256.Sum256(b)
+	g := &gen{r: common.NewRand(binary.LittleEndian.Uint64(h[:8]))}
+	ops := genOps(g, fd)
+	formEvalOn(c, strings.TrimPrefix(lines[0], c.r.Prop+" "), fd, ops, dup, false, "decoded", &d)
+}
+
+func formEvalOn(c *ctx, vline string, fd formDesc, ops []setOp, dup, bad bool, class string, pre *form.Data) {
 	r := c.r
-	r.Line(vline, "-")
 	lines := []string{r.Prop + " " + vline}
-	r.Case(vline, true, class+"/form.Data")
+	if pre == nil {
+		r.Line(vline, "-")
+		r.Case(vline, true, class+"/form.Data")
+	}
 
 	repr := xmlValid(fd.title) && xmlValid(fd.instr)
 	for _, f := range fd.fields {
@@ -611,7 +654,9 @@ func formEval(c *ctx, vline string, fd formDesc, ops []setOp, dup, bad bool, cla
 	}
 
 	var d *form.Data
-	if p := guard("build", func() ([]byte, []xml.Token, error) { d = fd.build(); return nil, nil, nil }); p.panicked != "" {
+	if pre != nil {
+		d = pre
+	} else if p := guard("build", func() ([]byte, []xml.Token, error) { d = fd.build(); return nil, nil, nil }); p.panicked != "" {
 		r.Fail("no-panic", "form.Data/construct/"+panicClass(p.panicked), lines, "form.New panicked: "+p.panicked)
 		return
 	}
